@@ -112,6 +112,31 @@ pub fn rules(th: bool) -> Vec<(String, String, String)> {
             wrap(&format!("[{{f: {}}}, {{g: {}}}]", q(&format!("i{}", p)), q(&format!("i{}", p)))),
         ));
     }
+    // comparisons written in the condition: they have no string pattern, so nothing can carry an
+    // i prefix and the two builds must treat them identically (field-to-field str() equality is
+    // exact in both)
+    for cond in [
+        "str(f) == str(g)",
+        "A and str(f) == str(g)",
+        "A or str(f) == str(g)",
+        "not A and str(f) == str(g)",
+        "str(g) == str(f)",
+        "int(f) == int(g)",
+        "flt(f) >= flt(g)",
+        "f == g",
+        "A and f == g",
+    ] {
+        for p in ["a*", "AB", "?^a"] {
+            let w = |pat: &str| {
+                format!(
+                    "detection:\n  A: {{f: {}}}\n  condition: {}\ntrue_positives: []\ntrue_negatives: []\n",
+                    q(pat),
+                    q(cond)
+                )
+            };
+            out.push((format!("A: {{f: {}}} ; {}", p, cond), w(p), w(&format!("i{}", p))));
+        }
+    }
     out
 }
 
@@ -130,6 +155,12 @@ pub fn docs() -> Vec<MObj> {
         out.push(MObj::new().with("f", s(t)).with("g", s(t)));
         out.push(MObj::new().with("n", crate::mdoc::obj(vec![("x", s(t))])));
     }
+    for (a, b) in [("ab", "AB"), ("Ab", "ab"), ("AB", "AB"), ("a", "b"), ("A", "a"), ("true", "TRUE"), ("1", "1")] {
+        out.push(MObj::new().with("f", s(a)).with("g", s(b)));
+    }
+    out.push(MObj::new().with("f", s("TRUE")).with("g", MVal::Bool(true)));
+    out.push(MObj::new().with("f", s("true")).with("g", MVal::Bool(true)));
+    out.push(MObj::new().with("f", MVal::Int(1)).with("g", s("1")));
     out.push(MObj::new().with("f", MVal::Int(1)));
     out.push(MObj::new().with("f", MVal::Int(2)));
     out.push(MObj::new().with("f", MVal::Float(1.5)));
@@ -269,7 +300,7 @@ pub fn run(tier: Tier) -> i32 {
     rep.stats.count("documents", ds.len() as u64);
     rep.stats.sample(json!({"rule":"f: 'ia'","ignore_case_build":"exact 'ia', case-insensitive","default_build":"f: 'iia'"}));
     rep.stats.sample(json!({"rule":"all(f): ['a*', '*A', '?i', 'I']","documents":ds.len()}));
-    rep.rule = "rules: every pattern up to the length bound over {a, A, i, I, *, ?} (so that the prefix letter itself is exercised) plus quoted, regex and numeric forms, under k / str(k) / not(k); all pairs of the short patterns and four mixed 4-member lists under k / all(k) / of(k,n) / str(k) / not(k); nested and sequence forms; x ASCII documents (every string up to length 3 over {a,A,i,I,b}, numbers, booleans, arrays, nested). Two real builds of the same enumeration: the ignore_case build evaluates the rule as written, the default build evaluates it with i prepended to every string pattern; tables of load outcomes and three-valued results must be identical. non-trivial = rule is discriminating in the ignore_case build".into();
+    rep.rule = "rules: every pattern up to the length bound over {a, A, i, I, *, ?} (so that the prefix letter itself is exercised) plus quoted, regex and numeric forms, under k / str(k) / not(k); all pairs of the short patterns and four mixed 4-member lists under k / all(k) / of(k,n) / str(k) / not(k); nested and sequence forms; conditions with field-to-field cast comparisons (no pattern to prefix); x ASCII documents (every string up to length 3 over {a,A,i,I,b}, numbers, booleans, arrays, nested). Two real builds of the same enumeration: the ignore_case build evaluates the rule as written, the default build evaluates it with i prepended to every string pattern; tables of load outcomes and three-valued results must be identical. non-trivial = rule is discriminating in the ignore_case build".into();
     rep.assumptions = vec!["both binaries are rebuilt from /repo's working tree by ./check C15".into()];
     rep.finish()
 }
